@@ -453,6 +453,11 @@ func main() {
 				continue
 			}
 			lon, lat := pt[0]*r, pt[1]*r
+			if dd := math.Abs(pt[0] - pval(d.Params, "lon_0", 0)); math.Abs(dd-180) < 1e-9 {
+				// on the projection's antimeridian the sign of the easting is a matter
+				// of rounding; such positions are compared with proj4js only
+				continue
+			}
 			var x, y float64
 			switch d.Proj {
 			case "merc":
